@@ -404,16 +404,22 @@ func resolveUnionBatch(ctx context.Context, sources []interface{}, typ *Union, s
 	var workUnits []*WorkUnit
 	for srcType, sources := range sourcesByType {
 		gqlType := typ.Types[srcType]
+		// Resolve all fragments that apply to this member type together, so that
+		// their selections are merged (and their directives evaluated) instead of
+		// each fragment overwriting the result of the previous one. A member that
+		// no fragment matches still gets an (empty) object rather than null.
+		merged := &SelectionSet{Selections: selectionSet.Selections}
 		for _, fragment := range selectionSet.Fragments {
 			if fragment.On != srcType {
 				continue
 			}
-			units, err := resolveObjectBatch(ctx, sources, gqlType, fragment.SelectionSet, destinationsByType[srcType])
-			if err != nil {
-				return nil, err
-			}
-			workUnits = append(workUnits, units...)
+			merged.Fragments = append(merged.Fragments, fragment)
 		}
+		units, err := resolveObjectBatch(ctx, sources, gqlType, merged, destinationsByType[srcType])
+		if err != nil {
+			return nil, err
+		}
+		workUnits = append(workUnits, units...)
 
 	}
 	return workUnits, nil
